@@ -29,12 +29,13 @@ SQ2 = math.sqrt(2)
 
 def models(tier, seed):
     n = 2500 if tier == 'quick' else 30000
-    return [dict(module='MC_C13.tla', cfg='MC_C14_sim.cfg', simulate='num=100000000', depth=9, seed=seed, max_cases=n, shards=12, batch=20)]
+    return [dict(module='MC_C13.tla', cfg='MC_C14_sim.cfg', simulate='num=100000000', depth=9, seed=seed, max_cases=n, shards=12, batch=20),
+            dict(module='MC_C15.tla', cfg='MC_C15_sim.cfg', simulate='num=100000000', depth=7, seed=seed + 3, max_cases=n // 3, shards=12, batch=20)]
 
 
 def required_tags(tier):
     return ['real', 'complex:cartesian', 'complex:polar_rad', 'complex:polar_deg', 'sf_complex', 'sf_time', 'sf_time:sin', 'sf_time:hertz', 'reverse', 'voltage', 'current', 'power',
-            'potential', 'reversed_source', 'judged']
+            'potential', 'reversed_source', 'judged', 'declarative']
 
 
 def label_text(el):
@@ -93,6 +94,8 @@ def complex_events(text, mode, unit, z, p, evs, what, scale):
 
 
 def replay(case, ctx):
+    if 'ents' in case:
+        return replay_declarative(case, ctx)
     prog, netlist = case['prog'], case['netlist']
     h = stable_hash(prog)
     r = CaseResult(case_id=f'{h:x}')
@@ -270,3 +273,73 @@ def post(events, tier, seed, ctx):
     r.tags = ['judged']
     yield (json.dumps({'judged': len(events)}), r)
     yield {'trace_validation': dict(info, verdicts=counts, module='Trace_C18.tla')}
+
+
+
+def replay_declarative(case, ctx):
+    """the declarative simulation description: create_schematic({... 'solution': {...}}) puts the label symbols into schematic.elements"""
+    from .c15 import decl_elements, schematic_mod
+    from CircuitCalculator.SimpleCircuit import Elements as elm
+    prog, netlist = case['prog'], case['netlist']
+    h = stable_hash(case['ents'])
+    r = CaseResult(case_id=f'{h:x}')
+    dc = case['dc']
+    if not dc['ok'] or not netlist:
+        r.skipped = 'ill_posed'
+        r.nontrivial = False
+        return r
+    tg = {'declarative'}
+    elements, names, label_names, gnd_name, naming, scheme, unit = decl_elements(case)
+    p = [2, 3, 4][h % 3]
+    kind = ['dc', 'real', 'complex'][h % 3]
+    volt = [{'name': names[c['id']], 'reverse': bool((h >> (j + 2)) % 2)} for j, c in enumerate(netlist)]
+    curr = [{'name': names[c['id']], 'reverse': bool((h >> (j + 5)) % 2)} for j, c in enumerate(netlist)]
+    powr = [{'name': names[c['id']], 'reverse': bool((h >> (j + 7)) % 2)} for j, c in enumerate(netlist)]
+    sol_def = {'type': kind, 'precision': p, 'voltages': volt, 'currents': curr, 'powers': powr, 'w': 5.0, 'bogus': 1}
+    import matplotlib.pyplot as plt
+    try:
+        sch, e = call(lambda: schematic_mod().create_schematic({'unit': unit, 'elements': elements, 'solution': sol_def}))
+    finally:
+        plt.close('all')
+    ctxs = f'declarative {kind} precision={p} scheme={scheme}'
+    if e is not None:
+        r.mismatches.append({'what': 'create_schematic with solution', 'got': repr(e), 'want': 'schematic', 'signature': f'exc:create_schematic:{exc_sig(e)}', 'detail': ctxs + f' elements={elements}'})
+        return r
+    vl = [x for x in sch.elements if isinstance(x, elm.VoltageLabel)]
+    cl = [x for x in sch.elements if isinstance(x, elm.CurrentLabel)]
+    pl = [x for x in sch.elements if isinstance(x, elm.PowerLabel)]
+    r.observations += 1
+    if (len(vl), len(cl), len(pl)) != (len(volt), len(curr), len(powr)):
+        r.mismatches.append({'what': 'label symbols in schematic.elements', 'got': repr((len(vl), len(cl), len(pl))), 'want': repr((len(volt), len(curr), len(powr))), 'signature': 'declarative:label_count', 'detail': ctxs})
+        return r
+    U = [gauss(x) for x in dc['u']]
+    I = [gauss(x) for x in dc['i']]
+    factor = 1.0 if kind != 'complex' else 1 / SQ2
+    vscale = max([abs(x) for x in U] + [1e-9]) * factor
+    iscale = max([abs(x) for x in I] + [1e-9]) * factor
+    vscale, iscale = max(vscale, iscale * 1e-3), max(iscale, vscale * 1e-3)
+    evs = []
+    for j, c in enumerate(netlist):
+        for quantity, labs, req, val, unit_, scale in (('voltage', vl, volt, U[j], 'V', vscale), ('current', cl, curr, I[j], 'A', iscale), ('power', pl, powr, None, 'W', vscale * iscale)):
+            sgn = -1 if req[j]['reverse'] else 1
+            text = label_text(labs[j])
+            what = f'{ctxs} {quantity}({req[j]["name"]!r}, reverse={req[j]["reverse"]})'
+            tg.update([quantity] + (['reverse'] if req[j]['reverse'] else []))
+            r.observations += 1
+            if kind == 'complex':
+                v = (val * factor * sgn) if val is not None else U[j] * I[j].conjugate() * factor * factor * sgn
+                prob = complex_events(text, 'cartesian', unit_, v, p, evs, what, scale)
+            elif quantity == 'power':
+                v = U[j].real * I[j].real * sgn
+                prob = float_event(text, 'W', c18.DEFAULT_TABLE, v if abs(v) > 1e-9 * scale else 0.0, p, evs, what, sign_from_arrow=True, zero_scale=scale)
+            else:
+                v = val.real * sgn
+                prob = float_event(text, unit_, DISPLAY, v if abs(v) > 1e-9 * scale else 0.0, p, evs, what, zero_scale=scale)
+            if prob:
+                r.mismatches.append({'what': what, 'got': repr(text), 'want': f'annotation of {v!r}', 'signature': f'annotation:{prob}:declarative', 'detail': f'elements={elements}'})
+    for ev in evs:
+        ev['case'] = f'{h:x}'
+    r.events = evs
+    r.tags = sorted(tg)
+    r.nontrivial = bool(evs)
+    return r
